@@ -278,6 +278,21 @@ Section Equiv.
   Lemma ren_group : forall dd self G f, ren rn_tab rn_col dd self G f = EGroup <-> f = EGroup.
   Proof. intros dd self G f. destruct f; cbn; split; intro H; try discriminate; reflexivity. Qed.
 
+  Definition grp_src (co : column) : option name :=
+    match ctype co, cformula co with CRefList s, Some EGroup => Some s | _, _ => None end.
+
+  Lemma grp_src_rn : forall t co, grp_src (rcolumn d t co) = option_map rn_tab (grp_src co).
+  Proof.
+    intros t co. unfold grp_src. cbn.
+    destruct (ctype co) as [|u|u]; destruct (cformula co) as [f|]; try reflexivity; destruct f; reflexivity.
+  Qed.
+
+  Lemma is_grp_none : forall co, is_grp co = false -> grp_src co = None.
+  Proof.
+    intros co H. unfold is_grp in H. unfold grp_src.
+    destruct (ctype co); destruct (cformula co) as [f|]; try reflexivity; destruct f; try reflexivity; discriminate.
+  Qed.
+
   Lemma summary_source_rn : forall t,
     summary_source (rdoc d) (rn_tab t) = option_map rn_tab (summary_source d t).
   Proof.
@@ -535,10 +550,11 @@ Section Cells.
   Variable prim2 : Z -> val -> val -> R val.
   Hypothesis tab_inj : forall a b, name_eqb (rn_tab a) (rn_tab b) = name_eqb a b.
   Hypothesis col_inj : forall t a b, name_eqb (rn_col t a) (rn_col t b) = name_eqb a b.
-  Hypothesis group_stable : forall t c, name_eqb (rn_col t c) GROUP = name_eqb c GROUP.
   Hypothesis prim1_nat : forall f v, prim1 f (rn_val rn_tab v) = rn_res rn_tab (prim1 f v).
   Hypothesis prim2_nat : forall f a b, prim2 f (rn_val rn_tab a) (rn_val rn_tab b) = rn_res rn_tab (prim2 f a b).
   Variable d : doc.
+  Hypothesis group_stable : forall tb co, In tb d -> In co (tcols tb) -> is_grp co = true ->
+    name_eqb (rn_col (tname tb) (cname co)) GROUP = name_eqb (cname co) GROUP.
   Hypothesis Hwf : doc_wf d.
 
   Notation rv := (rn_val rn_tab).
@@ -572,7 +588,7 @@ Section Cells.
     rewrite (find_col_rn rn_tab rn_col col_inj).
     destruct (find_col tb c) as [co|] eqn:Hc; [|reflexivity]. cbn [option_map rn_column cformula ctype cdata].
     destruct (cformula co) as [f|] eqn:Hf; cbn [option_map].
-    - destruct (eval_rn_mut rn_tab rn_col prim1 prim2 tab_inj col_inj group_stable prim1_nat prim2_nat d
+    - destruct (eval_rn_mut rn_tab rn_col prim1 prim2 tab_inj col_inj prim1_nat prim2_nat d group_stable
                   (cell prim1 prim2 d n) (cell prim1 prim2 (rdoc d) n) IHn (cell_sound n)) as [He _].
       specialize (He f (tname tb) [] [] r). cbn [map] in He. rewrite He.
       + destruct (eval prim1 prim2 d (cell prim1 prim2 d n) (tname tb) r [] f); [|reflexivity]. cbn. apply wrap_rv.
@@ -589,7 +605,7 @@ Section Cells.
     = rr (eval_formula prim1 prim2 fuel d self row f).
   Proof.
     intros fuel self row f Hf. unfold eval_formula.
-    destruct (eval_rn_mut rn_tab rn_col prim1 prim2 tab_inj col_inj group_stable prim1_nat prim2_nat d
+    destruct (eval_rn_mut rn_tab rn_col prim1 prim2 tab_inj col_inj prim1_nat prim2_nat d group_stable
                 (cell prim1 prim2 d fuel) (cell prim1 prim2 (rdoc d) fuel) (cell_rn fuel) (cell_sound fuel)) as [He _].
     apply (He f self [] [] row); [|exact Hf]. intros x T v HG. discriminate.
   Qed.
